@@ -13,9 +13,11 @@ EXPLANATION = (
     ' equal to whatever it is compared with, not}: Ok only after the write, key = namespace argument, value = postcard '
     'encoding of the policy argument; get_download_policy reads the same table by the namespace argument, decodes the '
     'stored bytes and defaults to EverythingExcept([]); the table has no other writer besides remove_replica and '
-    "migrations; (R3) FilterKind's Display and FromStr use the same tag set and the same tag<->variant pairing, and the Display -> "
-    'FromStr round trip is evaluated on concrete sample filters (payloads containing the separator, non-UTF-8 payloads). '
-    'NOT decided: text round trip for all byte strings (hex/utf8 codecs trusted).'
+    "migrations; (R3) FilterKind's Display and FromStr use the same tag set and the same tag<->variant pairing, and the "
+    'Display -> FromStr round trip is evaluated on concrete sample filters (payloads containing the separator, non-UTF-8 '
+    "payloads). (R4) the API handlers for setting / reading the policy evaluated: the request's own document and policy are"
+    ' forwarded, the stored policy is returned. NOT decided: text round trip for all byte strings (hex/utf8 codecs '
+    'trusted).'
 )
 ASSUMPTIONS = ["postcard encode/decode are inverse (trusted)", "redb tables are identified by their key/value types"]
 
@@ -251,7 +253,16 @@ def r3(ctx):
     ctx.floor("C15.R3", 4)
 
 
+def r4(ctx):
+    """the API layer forwards the policy and the document of the request itself and reports the store actor's outcome"""
+    from . import apifw
+    apifw.check_forwarder(ctx, "C15.R4", "doc_set_download_policy", "SetDownloadPolicyRequest", ["set_download_policy(req.doc_id,req.policy)"], "Ok(SetDownloadPolicyResponse)")
+    apifw.check_forwarder(ctx, "C15.R4", "doc_get_download_policy", "GetDownloadPolicyRequest", ["get_download_policy(req.doc_id)"], "Ok(GetDownloadPolicyResponse(result-of-get_download_policy))")
+    ctx.floor("C15.R4", 4)
+
+
 def run(ctx):
     ctx.run_rule("C15.R1", r1)
     ctx.run_rule("C15.R2", r2)
     ctx.run_rule("C15.R3", r3)
+    ctx.run_rule("C15.R4", r4)
